@@ -147,6 +147,20 @@ func (c *PConn) WriteTo(b []byte, addr net.Addr) (int, error) {
 	return len(b), nil
 }
 
+// Flush discards every datagram waiting in the socket's receive queue and
+// returns how many there were.
+func (c *PConn) Flush() int {
+	n := 0
+	for {
+		select {
+		case <-c.inbox:
+			n++
+		default:
+			return n
+		}
+	}
+}
+
 // InjectReadError makes the pending or next ReadFrom fail with err.
 func (c *PConn) InjectReadError(err error) {
 	select {
